@@ -49,6 +49,47 @@ def comparator_direction(cb):
     return d, fname
 
 
+def sort_semantics(F, body, call):
+    """(direction, key field) of a sort call whatever its form: comparator closure (`*_by`), key closure
+    (`*_by_key`, `Reverse(..)` flips) or natural order"""
+    nm = call.name
+    if nm in ('sort', 'sorted', 'sort_unstable', 'sorted_unstable'):
+        return 'asc', None
+    for cb in closure_args_of_call(F, body, call):
+        if 'by_key' in nm or 'by_cached_key' in nm:
+            e = ExprBuilder(cb).place(0, ())
+            d = 'asc'
+            x = e
+            while x.kind in ('agg', 'call') and ('Reverse' in (x.name or '')) and x.args:
+                d = 'desc' if d == 'asc' else 'asc'
+                x = x.args[0]
+            x = x.strip()
+            if x.kind == 'place' and x.root == ('param', 2) and x.fields:
+                return d, x.fields[-1]
+            if x.kind == 'call' and x.args and any(p.root == ('param', 2) for p in x.args[0].places()):
+                return d, x.name.rsplit('::', 1)[-1]
+            return None, None
+        return comparator_direction(cb)
+    return None, None
+
+
+def dedup_key(F, body, call):
+    """field by which a dedup call identifies duplicates: dedup_by(|a, b| a.f == b.f) / dedup_by_key(|x| x.f)"""
+    for cb in closure_args_of_call(F, body, call):
+        e = ExprBuilder(cb).place(0, ())
+        if call.name == 'dedup_by_key':
+            x = e.strip()
+            return x.fields[-1] if x.kind == 'place' and x.root == ('param', 2) and x.fields else None
+        cm = as_cmp(e, True)
+        if cm is not None and cm[0] == 'Eq':
+            a, b_ = cm[1].strip(), cm[2].strip()
+            if a.kind == 'place' and b_.kind == 'place' and a.fields[-1:] == b_.fields[-1:] and a.fields and \
+                    {a.root, b_.root} == {('param', 2), ('param', 3)}:
+                return a.fields[-1]
+        return None
+    return None
+
+
 def _upvar_uses(cb, k):
     """classify the uses of upvar k inside closure body cb: returns dict(writes=[ln], cmp_reads=[ln], other_reads=[ln],
     nested=[(closure body, k2)])"""
